@@ -29,6 +29,7 @@ path to here"):
     return / raise / continue / break         -> do not fall through
     nested def / lambda / class               -> not walked; a site or Y inside one is REFUSED (reported as an error)
 `after="passes:<test>"`: Y is a guard statement `if <test>: <body that cannot fall through>` (no else); the fact holds behind it.
+`after="ifstmt:<test>"`: Y is the conditional statement `if <test>: ...` as a whole (the fact holds behind it whichever branch ran).
 `mode="none_after"` turns the declaration around (a MAY-analysis): the obligation at a site is that NO path reaches it after
 a statement containing Y may have been executed ("every pull from the frame buffer happens before the stream lookup that
 can abort the handler"); joins are unions, a loop body is walked again from the joined fact, an exception handler is
@@ -53,7 +54,7 @@ def _src_root():
 
 
 def _is_site(node, kind, name):
-    if kind == "passes":
+    if kind in ("passes", "ifstmt"):
         return False  # only meaningful as `after`: handled on `if` statements in Walk.stmt
     if kind == "writes":
         if isinstance(node, (ast.Assign, ast.AugAssign, ast.AnnAssign)):
@@ -138,6 +139,14 @@ class Walk:
             a0 = a
             for h in _header_exprs(st):
                 a0 = self.simple(ast.Expr(value=h, lineno=st.lineno), a0)
+            if self.after[0] == "ifstmt" and not self.may and ast.unparse(st.test) == self.after[1]:
+                # `after="ifstmt:<test>"`: Y is the conditional statement itself ("the limit is set when it is needed"): the
+                # fact holds behind it whichever branch ran
+                self.guards_seen = getattr(self, "guards_seen", 0) + 1
+                self.block(st.body, a0)
+                if st.orelse:
+                    self.block(st.orelse, a0)
+                return True, True
             if self.after[0] == "passes" and not self.may and not st.orelse and ast.unparse(st.test) == self.after[1]:
                 # `after="passes:<test>"`: a guard `if <test>: <body that raises / returns>`; control continues behind it only when
                 # the test was false - the fact holds from there on
@@ -205,9 +214,9 @@ class Walk:
 
 def _parse(spec):
     k, _, n = spec.partition(":")
-    if k not in ("writes", "calls", "passes") or not n:
+    if k not in ("writes", "calls", "passes", "ifstmt") or not n:
         raise ValueError("bad site spec %r" % spec)
-    if k == "passes":
+    if k in ("passes", "ifstmt"):
         n = ast.unparse(ast.parse(n, mode="eval").body)
     return (k, n)
 
@@ -270,7 +279,7 @@ def build(qual, reg):
         got = counts.get(_parse(s), 0)
         if got != n:
             r.errors.append("expected %d site(s) %s in %s, found %d (vacuity guard: the site moved out of the function or was renamed)" % (n, s, fq, got))
-    if after[0] == "passes":
+    if after[0] in ("passes", "ifstmt"):
         if not getattr(w, "guards_seen", 0):
             r.errors.append("no guard `if %s:` in %s" % (after[1], fq))
     elif not any(_is_site(x, after[0], after[1]) for x in ast.walk(node) if isinstance(x, ast.stmt)):
